@@ -57,6 +57,9 @@ pub enum Case {
     Letter { family: String, letter: String, content: String },
     Heuristic { family: String, content: String },
     Position { mt: String, position: String, letter: String, text: String },
+    /// a documented option at a documented position with content valid for that option; `alts` are
+    /// the same message with another documented option of the same field number
+    Documented { mt: String, num: String, opt: String, text: String, alts: Vec<String> },
 }
 
 fn v(l: &mut Local, who: &str, clause: &str, detail: &str, what: String, case: &Case) {
@@ -192,6 +195,42 @@ pub fn judge(_cfg: &Config, case: &Case, l: &mut Local) {
                 }
             }
         }
+        Case::Documented { mt, num, opt, text, alts } => {
+            let ops = crate::registry::msg(mt).unwrap();
+            let stratum = format!("documented:MT{mt}");
+            match guard(|| (ops.parse_b4)(text)) {
+                Err(_) => l.eval(&stratum, "panic(C07)", false, 0),
+                Ok(Err(e)) => {
+                    l.eval(&stratum, "rejected", true, hash_bytes2(mt, text));
+                    // attributable to the option only if the same message with another documented
+                    // option of that field is accepted (a type that rejects all of them fails for another reason: C03)
+                    let other_ok = alts.iter().any(|a| matches!(guard(|| (ops.parse_b4)(a)), Ok(Ok(_))));
+                    if other_ok {
+                        v(
+                            l,
+                            &format!("MT{mt}:{num}"),
+                            "documented-option-rejected",
+                            opt,
+                            format!("MT{mt}: field {num}{opt} with content valid for option {opt:?} is rejected while the same message with another documented option of field {num} is accepted: {}", e.to_string().chars().take(100).collect::<String>()),
+                            case,
+                        );
+                    }
+                }
+                Ok(Ok(m)) => {
+                    l.eval(&stratum, "accepted", true, hash_bytes2(mt, text));
+                    if let Ok(y) = guard(|| m.to_mt()) {
+                        let tx: Vec<String> = tok::tokenize(text).fields.iter().map(|t| t.tag.clone()).collect();
+                        let ty: Vec<String> = tok::tokenize(&y).fields.iter().map(|t| t.tag.clone()).collect();
+                        if tx != ty {
+                            let k = tx.iter().zip(&ty).position(|(a, b)| a != b).unwrap_or(tx.len().min(ty.len()));
+                            let a = tx.get(k).cloned().unwrap_or("<end>".into());
+                            let b = ty.get(k).cloned().unwrap_or("<end>".into());
+                            v(l, &format!("MT{mt}:{num}"), "documented-option-not-preserved", &format!("{a}->{b}"), format!("MT{mt}: a message using the documented option {num}{opt} is accepted, the serialisation shows {b} where {a} was written"), case);
+                        }
+                    }
+                }
+            }
+        }
         Case::Position { mt, position, letter, text } => {
             let ops = crate::registry::msg(mt).unwrap();
             let stratum = format!("position:MT{mt}");
@@ -275,6 +314,36 @@ pub fn run(cfg: &Config) -> i32 {
             }
         }
     }
+    // documented options at their documented positions (content valid for the option)
+    for lay in &layouts {
+        let pairs = layout::option_pairs(lay);
+        for vi in 0..cfg.tier.pick(3u64, 12u64) {
+            let mut texts: std::collections::BTreeMap<(String, String, bool), String> = Default::default();
+            for (num, opt) in &pairs {
+                for maximal in [false, true] {
+                    let mut r = Rng::new(cfg.seed, &format!("c14-doc:{}", lay.mt), vi);
+                    let gopt = GenOptions { optional_per_mille: 400, max_repeat: 2, max_seq: 2, maximal, minimal: false };
+                    let mut g = Gen { r: &mut r, counter: vi as usize * 40, mt: lay.mt, opt: gopt, force_option: Some((num.clone(), opt.clone())), force_include: Some(num.clone()) };
+                    let gf = g.message(lay);
+                    let mut toks: Vec<Token> = Vec::new();
+                    let mut ok = true;
+                    for f in &gf {
+                        match spec::canonical(&f.tag, &f.content) {
+                            Canon::Ok(c) => toks.push(Token { tag: f.tag.clone(), content: c }),
+                            _ => ok = false,
+                        }
+                    }
+                    if ok {
+                        texts.insert((num.clone(), opt.clone(), maximal), tok::render(&toks, false, false));
+                    }
+                }
+            }
+            for ((num, opt, maximal), text) in &texts {
+                let alts: Vec<String> = texts.iter().filter(|((n2, o2, m2), _)| n2 == num && o2 != opt && m2 == maximal).map(|(_, t)| t.clone()).collect();
+                cases.push(Case::Documented { mt: lay.mt.to_string(), num: num.clone(), opt: opt.clone(), text: text.clone(), alts });
+            }
+        }
+    }
     let n = cases.len() as u64;
     let total = par_for(cfg, n, |i, l| {
         let case = &cases[i as usize];
@@ -282,6 +351,7 @@ pub fn run(cfg: &Config) -> i32 {
             Case::Letter { family, .. } => format!("letter:{family}"),
             Case::Heuristic { family, .. } => format!("heuristic:{family}"),
             Case::Position { mt, .. } => format!("position:MT{mt}"),
+            Case::Documented { mt, .. } => format!("documented:MT{mt}"),
         };
         if l.want_sample(&lab) {
             l.sample(&lab, serde_json::to_value(case).unwrap());
